@@ -257,7 +257,7 @@ package silence
 //@   assumes sil != nil && len(sil.MatcherSets) > 0 ==> sil.MatcherSets[0] != nil
 //@   ensures [sets-untouched] sil != nil ==> sil.MatcherSets == old(sil.MatcherSets)
 //@   ensures [legacy-mirror] sil != nil && len(sil.MatcherSets) > 0 ==> sil.Matchers == sil.MatcherSets[0].Matchers
-//@   assigns silencepb.Silence.Matchers
+//@   assigns sil.Matchers
 //@ func postprocessUnmarshalledSilence
 //@   props C11
 //@   requires sil != nil
